@@ -2,7 +2,6 @@
    parse_tokens (doc_toks d) = Ok (tree_of d, 0). *)
 From V.model Require Import Base Deb822Lex Deb822Parse Grammar.
 From V.proofs Require Import BaseP Deb822LexP Deb822ParseP.
-Set Default Timeout 60.
 
 (* what follows a complete line: nothing, or the start of another line *)
 Definition starts_line (ts : list token) : Prop :=
